@@ -554,6 +554,31 @@ def eval_cond(k, env):
     return None
 
 
+def rebuild_unconditional(chk, repo, rule, paths=None):
+    """On every path of _setup_correlation with heat-capacity data the
+    delegate is built anew from the current fields (a memo keyed on part of
+    them serves an old table after update(overwrite=True), or old reference
+    values after a merge that adds them); also used by C13."""
+    setup = repo.func(INC, 'ThermochemIncomplete._setup_correlation')
+    if paths is None:
+        paths = sym.summarize(setup)
+    stale = [p for p in paths if p.outcome[0] == 'return'
+             and not p.says(('truthy', A('ND_Cp_data')), False)
+             and not any(e[1] == A('_correlation') for e in p.stores())]
+    chk.ob(rule, not stale, INC, setup, key='rebuild-unconditional',
+           what='_setup_correlation builds the delegate anew on every path '
+                'on which heat-capacity data exist (no early return, no '
+                'memo)',
+           found='; '.join(p.describe()[:160] for p in stale)[:500])
+    from .. import reviewed as _rv
+    _rv.check(chk, rule, repo, INC,
+              'ThermochemIncomplete._setup_correlation',
+              'ThermochemIncomplete._setup_correlation is unchanged in '
+              'normal form from its reviewed reference (old delegate '
+              'dropped, new one built from the current fields whenever '
+              'heat-capacity data exist)')
+
+
 def check_wrapper(chk, repo, rule_delegate='R05.6'):
     # signature order of the table correlation
     raw_init = repo.func(RAW, 'ThermochemRawData.__init__')
@@ -595,17 +620,7 @@ def check_wrapper(chk, repo, rule_delegate='R05.6'):
                key='delegate-only-with-Cp',
                what='the delegate is built only when heat-capacity data '
                     'exist', found=p.describe()[:200])
-    # the rebuild is unconditional: on every path with heat-capacity data
-    # the delegate is built anew from the current fields (a memo keyed on
-    # part of them serves an old table after update(overwrite=True))
-    stale = [p for p in paths if p.outcome[0] == 'return'
-             and not p.says(('truthy', A('ND_Cp_data')), False)
-             and not any(e[1] == A('_correlation') for e in p.stores())]
-    chk.ob('R05.8', not stale, INC, setup, key='rebuild-unconditional',
-           what='_setup_correlation builds the delegate anew on every path '
-                'on which heat-capacity data exist (no early return, no '
-                'memo)',
-           found='; '.join(p.describe()[:160] for p in stale)[:500])
+    rebuild_unconditional(chk, repo, 'R05.8', paths)
     ex = repo.func(INC, 'ThermochemIncomplete._expand_ND_Cp_data')
     dp = params(ex)[1]
     eps = sym.summarize(ex)
@@ -691,12 +706,6 @@ def run(chk, repo, tier):
     # the wrapper's three evaluators as a whole (which datum is required,
     # when the table correlation is consulted, what its range error becomes)
     from .. import reviewed as _rv
-    _rv.check(chk, 'R05.8', repo, INC,
-              'ThermochemIncomplete._setup_correlation',
-              'ThermochemIncomplete._setup_correlation is unchanged in '
-              'normal form from its reviewed reference (old delegate '
-              'dropped, new one built from the current fields whenever '
-              'heat-capacity data exist)')
     for mname in ('get_CpoR', 'get_HoRT', 'get_SoR'):
         _rv.check(chk, 'R05.6', repo, INC, 'ThermochemIncomplete.' + mname,
                   'ThermochemIncomplete.%s is unchanged in normal form from '
